@@ -596,8 +596,23 @@ def run_case(c):
                               f"reference LowRankInitialize (entry form {ref_form}) error {err_ref:.3e}", True, rep))
         cl = cx_count(ref)
         res["counts"].append("cx:compared")
-        res["checks"].append((case_key("cx", c), cb <= cl, f"BAA circuit {cb} cx > LowRankInitialize {cl} cx "
-                              f"(plan saved {node.total_saved_cnots})", True, dict(rep, cx_baa=cb, cx_lowrank=cl)))
+        name, extra_msg = "cx", ""
+        if cb > cl:
+            # BAA decides with the closed-form ESTIMATES (C10: exact only for states in general position).  When the exact
+            # reference circuit is cheaper than its own estimate while BAA's circuit stays within the estimate of its plan
+            # (= estimate of the exact preparation - total_saved_cnots), the excess comes from the estimate over-counting the
+            # exact preparation of a structured state, not from the search: reported under its own narrow key.
+            try:
+                from qclib.state_preparation.lowrank import cnot_count as _lr_cnots
+                est_exact = int(_lr_cnots(list(v)))
+                if cl < est_exact and cb <= est_exact - int(node.total_saved_cnots):
+                    name = "cx-exact-cheaper-than-estimate"
+                    extra_msg = (f"; estimate of the exact preparation {est_exact} > its circuit {cl}, BAA circuit {cb} <= estimate of "
+                                 f"its plan {est_exact - int(node.total_saved_cnots)}")
+            except Exception:
+                pass
+        res["checks"].append((case_key(name, c), cb <= cl, f"BAA circuit {cb} cx > LowRankInitialize {cl} cx "
+                              f"(plan saved {node.total_saved_cnots})" + extra_msg, True, dict(rep, cx_baa=cb, cx_lowrank=cl)))
     if gate is not None and hasattr(gate, "_define_initialize"):
         # every family (the classification is strict: the error must vanish with the A.2 pass bypassed)
         _dv_classify_a2(c, gate, v, tol, l_eff, res, rep)
@@ -2142,6 +2157,12 @@ def _dv_sizes(g):
           share_dict=True, other={"vec": _pairs(make_vector("haar", 3, pr, r)), "opt": {"max_fidelity_loss": 0.0}})
 
 
+# a 4-qubit state that is a product over the interleaved groups (0,2) x (1,3) (found by the seeded generator, VERIF_SEED=15): the
+# exact LowRankInitialize circuit has 6 CNOTs although lowrank.cnot_count estimates 8; with l = 0.05, strategy 'canonical',
+# use_low_rank the plan (rank 2 on the whole register, "saves" 1 by the estimates) costs 7 CNOTs
+DV_CX_PROBE = [[0.01269865880774607, -0.052050725174500885], [-0.03595337540829466, -0.06055509573396811], [0.14223209531555506, -0.05487207401327842], [0.08308094208311449, -0.18235142965065435], [0.04116050329157823, -0.0869602102351024], [-0.017234672804356997, -0.060461449201365494], [0.2700191759676326, -0.04507571881319191], [0.113264854804252, -0.13846647597078968], [0.05869366956456632, 0.2832947389172], [0.3156917444305084, 0.21202092213263626], [0.09696178832791819, -0.13124371561917303], [-0.02967500259097034, -0.21242252763480862], [0.0007809285035203922, 0.5195184927543163], [0.22417857179968406, 0.25494509510950913], [0.21801308725199356, -0.19577938388223134], [0.02279089616243125, -0.19011653963279207]]
+
+
 def _dv_probes(g):
     """LAST in the case list (so that the first violation reported is never one of these while anything else fails):
     the excluded band made visible (fixed inputs, independent of the seed; see the header: baa:dense-a2-precision,
@@ -2153,6 +2174,9 @@ def _dv_probes(g):
     hx = [float.fromhex(x) for x in DV_UCG_PROBE.split()]
     vec = np.array([complex(a, b) for a, b in zip(hx[0::2], hx[1::2])])
     g.add("class", 5, "ucgprobe", vec, 0.0, "canonical", True, 0, "ucgp", "scale:ucgprobe:tail=1e-4", a2class=True, fixed_tag="literal")
+    vec = np.array([complex(a, b) for a, b in DV_CX_PROBE])
+    g.add("class", 4, "cxprobe", vec, 0.05, "canonical", True, 0, "cxp", "scale:cxprobe:interleaved-product", do_cx=True,
+          fixed_tag="literal")
 
 
 def gen_diversity_cases(ctx):
